@@ -15,7 +15,7 @@ semantic error) and every option set:
      and coqc decides it by vm_compute on every run.
 (a) and (b) are observations about two C programs (evidence of the exploration
 kind); (c) is a checked obligation."""
-import sys, os, re, json
+import sys, os, re, json, time
 sys.path.insert(0, os.path.join(os.path.dirname(os.path.abspath(__file__)), "..", "lib"))
 from vlib import *
 from c10_util import *
@@ -307,12 +307,12 @@ def region_ties(run, res, known_ids):
                 run.violation("correspondence:ParamSpec.spec_indices", dict(replay, what="specialization indices in the generated headers differ from the model's",
                                                                              model=ans, c=cline, sites=[(s["member"], s["text"]) for s in ss]), no_input=not pairs)
             # Spec vs Code, on the C output alone: different actual parameter lists must not share a C type
+            if any(e for _, _, e in pairs) and "C10-param-actuals-compared-shallowly" in known_ids:
+                run.known_finding("C10-param-actuals-compared-shallowly", case)
+                run.count("known:C10-param-actuals-compared-shallowly")
             for a, b, explained in pairs:
-                run.count("oracle:distinct-actuals-share-a-type")
-                if explained and "C10-param-actuals-compared-shallowly" in known_ids:
-                    run.known_finding("C10-param-actuals-compared-shallowly", case)
-                    run.count("known:C10-param-actuals-compared-shallowly")
-                else:
+                run.count("oracle:distinct-actuals-share-a-type(pairs)")
+                if not (explained and "C10-param-actuals-compared-shallowly" in known_ids):
                     run.violation("param:distinct-actuals-share-a-type", dict(replay, what="two references with different actual parameters are given ONE C type",
                                                                              site_a=(a["member"], a["text"]), site_b=(b["member"], b["text"]), c_type=types.get("%s.%s" % (a["carrier"], a["member"]))))
     # the theorem spec_ignores_constraints, replayed: the key-erased references get the same indices
@@ -365,12 +365,19 @@ def main(tier):
         for oi, opts in enumerate(optsets):
             # thorough: asn1c runs under all 128 subsets for every module; the build + translator part runs for 16 of them
             # per module, rotating so that all subsets are built across the corpus
-            if tier == "quick" and m["origin"] == "special" and not m.get("all_optsets") and oi not in (mi % 2, 2 + (mi // 2) % 2):
+            if tier == "quick" and m["origin"] in ("special", "multi", "grammar") and not m.get("all_optsets") and oi not in (mi % 2, 2 + (mi // 2) % 2):
                 continue        # quick: generated modules get the 4 option sets, hand-made valid ones 2 of them in rotation
-            full = tier == "quick" or ((oi - 16 * mi) % 128) < 16
+            if tier == "quick" and m["origin"] == "param" and oi not in (1, 3, (0, 2, 1)[mi % 3]):
+                continue        # parameterized modules mostly need -fcompound-names (sets 1, 3); a third set in rotation
+            if tier == "quick" and m["origin"] == "grammar-refused" and oi != mi % 4:
+                continue        # refusals happen in the parser / fixer: one option set each
+            # thorough: build + translator under 16 rotating subsets per module (6 for the region modules of round 2, which are many)
+            full = tier == "quick" or ((oi - 16 * mi) % 128) < (6 if m["origin"] in ("param", "multi", "grammar", "grammar-refused") else 16)
             jobs.append({"mod": m, "opts": opts, "oi": oi, "dir": job_dir(root, m, oi), "asn1c": asn1c, "skel": skel,
                          "only_asn1c": not full, "cleanup": True})
+    print("C10: %d jobs" % len(jobs), file=sys.stderr)
     res = run_jobs(jobs)
+    print("C10: jobs done at %.1fs" % (time.time() - T0), file=sys.stderr)
 
     tables, table_jobs = [], []
     for j in res:
@@ -450,7 +457,9 @@ def main(tier):
         run.violation("model:modeldrv", {"what": str(e)[-1500:]}, no_input=True)
 
     # the generated obligations
+    print("C10: ties done at %.1fs, %d tables" % (time.time() - T0, len(tables)), file=sys.stderr)
     tres = check_tables(scr, tables) if tables else {}
+    print("C10: obligations done at %.1fs" % (time.time() - T0), file=sys.stderr)
     nobl, ndone = nthm + len(tables), ndis
     for i, (j, names_, replay) in enumerate(table_jobs):
         st, diag, log = tres.get(i, ("error", [], "not run"))
@@ -472,6 +481,13 @@ def main(tier):
         run.violation("translator:Gen_Descr(clause %s)" % ",".join(sorted({str(c) for _, c in diag})),
                       dict(replay, what="asn1c exited 0 and the code builds, but a type descriptor is internally inconsistent: wf_descr_all = false",
                            failing=bad, terms=[tables[i][3][d][:1500] for d, _ in diag[:2] if d < len(tables[i][3])]))
+
+    # vlib prints one VIOLATION line per kind among the first 20 recorded: put one of every kind first
+    firsts, rest, seen_k = [], [], set()
+    for v in run.violations:
+        (rest if v["kind"] in seen_k else firsts).append(v)
+        seen_k.add(v["kind"])
+    run.violations = firsts + rest
 
     tb = ["Coq 8.16.1 kernel + vm_compute (generated obligations)", "axioms under Print Assumptions: " + (", ".join(sorted(axioms)) or "none (Closed under the global context)"),
           "harness/dumpdescr.c (reads the public asn_TYPE_descriptor_t layout; op-table identity by address)", "lib/c10_util.py (corpus, pipeline, recognisers of the known findings)",
